@@ -106,6 +106,57 @@ Definition c16_data_run (rows : list (list (Z * Z))) (en ef : list (Z * Z)) (dis
   else (map (map c16_q_enc) (c16_edge_face_diff_nd qrows ef),
         map (map c16_q_enc) (c16_gradient_nd qrows ef (map c16_q_of dist))).
 
+
+(* ---- the grid's two distance tables along a history of operations ----
+   Grid.edge_node_distances / edge_face_distances populate `_ds` on first access and return the
+   stored variable afterwards; UxDataArray.difference touches neither; UxDataArray.gradient reads
+   edge_face_distances (populating it when absent) and must not write to it. *)
+Inductive c16_hop := HReadEnd | HReadEfd | HDiff | HGrad (normalize : bool).
+
+Record c16_gstate := { gs_end : option (list c16_entry); gs_efd : option (list c16_entry) }.
+
+Definition c16_hstep (sup_end sup_efd : bool) (en ef : list (Z * Z)) (s : c16_gstate) (o : c16_hop) : c16_gstate :=
+  match o with
+  | HReadEnd => match gs_end s with
+                | Some _ => s
+                | None => {| gs_end := Some (c16_grid_end sup_end en); gs_efd := gs_efd s |}
+                end
+  | HReadEfd | HGrad _ =>
+                match gs_efd s with
+                | Some _ => s
+                | None => {| gs_end := gs_end s; gs_efd := Some (c16_grid_efd sup_efd ef) |}
+                end
+  | HDiff => s
+  end.
+
+(* a source-supplied table is in `_ds` from the start *)
+Definition c16_hinit (sup_end sup_efd : bool) (en ef : list (Z * Z)) : c16_gstate :=
+  {| gs_end := if sup_end then Some (c16_grid_end true en) else None;
+     gs_efd := if sup_efd then Some (c16_grid_efd true ef) else None |}.
+
+Definition c16_hrun (sup_end sup_efd : bool) (en ef : list (Z * Z)) (ops : list c16_hop) : c16_gstate :=
+  fold_left (c16_hstep sup_end sup_efd en ef) ops (c16_hinit sup_end sup_efd en ef).
+
+Fixpoint c16_htrace (sup_end sup_efd : bool) (en ef : list (Z * Z)) (s : c16_gstate) (ops : list c16_hop)
+  : list c16_gstate :=
+  match ops with
+  | [] => []
+  | o :: r => let s' := c16_hstep sup_end sup_efd en ef s o in s' :: c16_htrace sup_end sup_efd en ef s' r
+  end.
+
+(* swapping the two faces of every interior row *)
+Definition c16_swap (p : Z * Z) : Z * Z := if is_fill (snd p) then p else (snd p, fst p).
+
+(* driver entry: op codes 0 = read end, 1 = read efd, 2 = difference, 3 / 4 = gradient without / with
+   normalisation -> after every op: (table present?, table present?) *)
+Definition c16_hop_of_code (z : Z) : c16_hop :=
+  if z =? 0 then HReadEnd else if z =? 1 then HReadEfd else if z =? 2 then HDiff else HGrad (z =? 4).
+Definition c16_presence (s : c16_gstate) : list Z :=
+  [match gs_end s with Some _ => 1 | None => 0 end; match gs_efd s with Some _ => 1 | None => 0 end].
+Definition c16_history_presence (sup_end sup_efd : bool) (en ef : list (Z * Z)) (ops : list Z) : list (list Z) :=
+  let s0 := c16_hinit sup_end sup_efd en ef in
+  map c16_presence (s0 :: c16_htrace sup_end sup_efd en ef s0 (map c16_hop_of_code ops)).
+
 (* ------------------------------------------------------------------------------------------ *)
 (* Part 2                                                                                        *)
 Local Open Scope R_scope.
